@@ -53,21 +53,24 @@ ALTS = {
         "alpha": [F(2), "auto", "auto_po2"],
         "use_stochastic_rounding": [True],
         "scale_axis": [(0, dict(alpha="auto"))],
-        "qnoise_factor": [F(1, 2)], "var_name": ["v"], "use_ste": [False],
+        "qnoise_factor": [F(1, 2), 0], "var_name": ["v"], "use_ste": [False],
         "use_variables": [True],
         "elements_per_scale": [(2, AUTO2)],
-        "min_po2_exponent": [(-2, dict(alpha="auto_po2"))],
-        "max_po2_exponent": [(1, dict(alpha="auto_po2"))],
+        "min_po2_exponent": [(-2, dict(alpha="auto_po2")),
+                             (0, dict(alpha="auto_po2"))],
+        "max_po2_exponent": [(1, dict(alpha="auto_po2")),
+                             (0, dict(alpha="auto_po2"))],
         "post_training_scale": [(PTS, dict(alpha="auto_po2"))]}),
     "bernoulli": ({}, {
         "alpha": [F(2), "auto"], "temperature": [F(4)],
         "use_real_sigmoid": [False]}),
     "ternary": ({}, {
-        "alpha": [F(2), "auto", "auto_po2"], "threshold": [F(1, 2)],
+        "alpha": [F(2), "auto", "auto_po2"], "threshold": [F(1, 2), 0],
         "use_stochastic_rounding": [(True, dict(alpha="auto"))],
         "number_of_unrolls": [(3, dict(alpha="auto"))]}),
     "stochastic_ternary": ({"alpha": "auto"}, {
-        "alpha": ["auto_po2", None], "threshold": [(F(1, 2), dict(alpha=None))],
+        "alpha": ["auto_po2", None], "threshold": [(F(1, 2), dict(alpha=None)),
+                                                   (0, dict(alpha=None))],
         "temperature": [F(4)], "use_real_sigmoid": [False],
         "number_of_unrolls": [3]}),
     "binary": ({}, {
@@ -75,21 +78,25 @@ ALTS = {
         "use_stochastic_rounding": [True],
         "scale_axis": [(0, dict(alpha="auto"))],
         "elements_per_scale": [(2, dict(alpha="auto", scale_axis=1))],
-        "min_po2_exponent": [(-2, dict(alpha="auto_po2"))],
-        "max_po2_exponent": [(1, dict(alpha="auto_po2"))]}),
+        "min_po2_exponent": [(-2, dict(alpha="auto_po2")),
+                             (0, dict(alpha="auto_po2"))],
+        "max_po2_exponent": [(1, dict(alpha="auto_po2")),
+                             (0, dict(alpha="auto_po2"))]}),
     "stochastic_binary": ({}, {
         "alpha": [F(2), "auto"], "temperature": [F(4)],
         "use_real_sigmoid": [False]}),
     "quantized_relu": ({}, {
         "bits": [5], "integer": [2], "use_sigmoid": [1],
-        "negative_slope": [F(1, 4)], "use_stochastic_rounding": [True],
+        "negative_slope": [F(1, 4), F(1, 2)],
+        "use_stochastic_rounding": [True],
         "relu_upper_bound": [(F(3, 2), dict(is_quantized_clip=False,
                                             qnoise_factor=F(1, 2)))],
         "is_quantized_clip": [(False, dict(qnoise_factor=F(1, 2)))],
         "qnoise_factor": [F(1, 2)],
         "var_name": ["v"], "use_ste": [False], "use_variables": [True]}),
     "quantized_ulaw": ({}, {
-        "bits": [5], "integer": [1], "symmetric": [1], "u": [F(100)]}),
+        "bits": [5], "integer": [1], "symmetric": [1],
+        "u": [F(100), F(31, 2)]}),
     "quantized_tanh": ({}, {
         "bits": [5], "use_stochastic_rounding": [True], "symmetric": [True],
         "use_real_tanh": [True]}),
@@ -97,12 +104,14 @@ ALTS = {
         "bits": [5], "symmetric": [True], "use_real_sigmoid": [True],
         "use_stochastic_rounding": [True]}),
     "quantized_po2": ({}, {
-        "bits": [5], "max_value": [F(2)], "use_stochastic_rounding": [True],
+        "bits": [5], "max_value": [F(2), 1, F(1, 2), 3],
+        "use_stochastic_rounding": [True],
         "quadratic_approximation": [True], "log2_rounding": ["floor"],
-        "qnoise_factor": [F(1, 2)], "var_name": ["v"], "use_ste": [False],
+        "qnoise_factor": [F(1, 2), 0], "var_name": ["v"], "use_ste": [False],
         "use_variables": [True]}),
     "quantized_relu_po2": ({}, {
-        "bits": [5], "max_value": [F(2)], "negative_slope": [F(1, 4)],
+        "bits": [5], "max_value": [F(2), 1, F(1, 2), 3],
+        "negative_slope": [F(1, 4)],
         "use_stochastic_rounding": [True], "quadratic_approximation": [True],
         "log2_rounding": ["floor"], "qnoise_factor": [F(1, 2)],
         "var_name": ["v"], "use_ste": [False], "use_variables": [True]}),
